@@ -462,12 +462,11 @@ def run(ctx):
         for a in pmap(_fixed_shard, shards):
             ctx.merge_part("fixed-id", a)
         ctx.note("fixed_id_texts", len(grid))
+    # declared finite space of the thorough tier: every stored period and every rule-generated transition through 9999 of every canonical
+    # zone of both files (+ the alias windows and the id grid named in the assumptions)
+    ctx.exhaustive = (tier == "thorough") and not only and not ctx.caps and not ctx.degraded and not any("/no-termination/" in k for k in ctx.violations)
     if tier == "quick":
         ctx.cap("quick tier: recurring tails compared for 400 years after their start + 50 seed-positioned years + 9997-9999")
-        ctx.exhaustive = False
-    else:
-        ctx.cap("thorough tier: alias ids compared on stored periods + %d tail years + 9997-9999 (canonical zones completely)" % ALIAS_TAIL_YEARS)
-        ctx.exhaustive = False
 
 
 def replay(rec):
